@@ -179,6 +179,10 @@ def run(tier):
     if r["error"] != "invariant-violated":
         raise core.Machinery("pinned distance rule (zero kept among the negative candidates) not rejected by the model")
     rep.cov["parts"]["DCHDistance[pinned rule]"] = "violates %s as expected" % r.get("violated")
+    r = core.model_check("DCHDistance.tla", "mc/DCHDistance_belowvalue.cfg", coverage=False, timeout=600)
+    if r["error"] != "invariant-violated":
+        raise core.Machinery("named deviation (value below the surface is the closest plane from below, not the offset) not reproduced by the model")
+    rep.cov["parts"]["DCHDistance[value below the surface]"] = "is not the vertical offset (%s fails, BelowIsBounded holds): outside the property, which fixes the sign only" % r.get("violated")
     rep.cov["exhaustive"] = True
     per = 14 if quick else 200
     with mp.Pool(core.NCPU) as pool:
